@@ -3,7 +3,8 @@
 (* from EVERY entry point (feature, rule, scenario, steps, tags) is fed to *)
 (* the line machine of GherkinParser.tla.  One TLC state per sequence      *)
 (* (sequences below an error/crash prefix are pruned: the outcome cannot   *)
-(* change any more).  Invariants: NoCrash, ErrorLineInRange, FaultLine.    *)
+(* change any more).  Invariants: NoCrash, ErrorLineInRange,               *)
+(* ErrorAtLastLine.                                                        *)
 (* Genuine defects of the code that the transcription reproduces are named *)
 (* by narrow exception predicates KF_C05_n so that TLC goes on past them.  *)
 (* Emit prints every sequence with its predicted outcome class.            *)
